@@ -20,6 +20,7 @@ ap.add_argument("--stub", action="store_true")
 ap.add_argument("--nofs", action="store_true", help="--no-array-field-sensitivity")
 ap.add_argument("--root", default="/var/tmp/vprobe")
 ap.add_argument("-s", "--set", action="append", default=[], help="regex=N unwindset rule")
+ap.add_argument("--like", default=None, help="take unwindset/stubbing/cbmc_args/cfg from this table query")
 ap.add_argument("harness", nargs="+")
 a = ap.parse_args()
 root = a.root
@@ -32,6 +33,15 @@ def find(h):
             if re.search(r"(fn %s\s*\(|!\(%s,)" % (re.escape(h), re.escape(h)), open(p).read()):
                 return os.path.relpath(p, ov)
     raise SystemExit("harness %s not found" % h)
+like = None
+if a.like:
+    from engine import queries as _q
+    like = [q for q in _q.ALL if q.name == a.like][0]
+    a.cfg = like.cfg
+    a.stub = like.stubbing
+    a.set = ["%s=%d" % (rx, n) for rx, n in (like.unwindset or [])]
+    if "--no-array-field-sensitivity" in (like.cbmc_args or []):
+        a.nofs = True
 feats, nodef, dbg = CONFIGS[a.cfg]
 os.makedirs(os.path.join(root, "logs"), exist_ok=True)
 def one(args):
